@@ -40,14 +40,22 @@
      comment-only lines; every line ending LF or CRLF, the last one possibly with the file;
    * whole files of such entries: exactly the denoted records, in order, with line numbers
      (`C23_records_partial`).
+  KNOWN FINDING D18 (WKS)
+     `serialize_in_wks` sets `1 << (port % 8)`; RFC 1035 §3.4.2 (bits numbered from the most
+     significant, §2.3.2) asks for `0x80 >> (port % 8)`.  `C23_wks_bitmap` proves, for all port
+     lists, that the code's bit map is the RFC's (`wksBitmap`, stated arithmetically) with every
+     octet bit-reversed, and that the repaired mask gives the RFC's; `C23_wks_bit_order_witness`
+     is the concrete record.  The model takes the order from the repository (extractor →
+     `Gen.wksMaskMsbFirst`), so the same theorems check against a repaired tree.
   NOT PROVED (the gap; the name says `_partial`)
-     the typed RDATA syntax of WKS — not in the presentation AST; in the subset such RDATA can be
-     written in `\#` form.  It is covered on every run by the correspondence oracle, which is
+     the typed RDATA syntax of WKS is not in the presentation AST (in the subset such RDATA can be
+     written in `\#` form).  It is covered on every run by the correspondence oracle, which is
      independent of these proofs: the harness's pretty-printer renders random record lists with
      random choices for *all* of the above and the expected parse is the generating record list
-     (op `zfp`, spec column = expected records).
+     (op `zfp`, spec column = expected records; files with IN WKS ports: op `zfw`, group `zonewks`).
 -/
 import QV.Proofs.ZoneFile.Files
+import QV.Proofs.ZoneFile.Wks
 
 namespace QV.C23
 open QV QV.ZF QV.Spec.ZF
@@ -415,5 +423,45 @@ theorem C23_witness :
       [.item (.record 2 ⟨[1, 116, 0], 5, 1, 2, [1, 97, 1, 116, 0]⟩),
        .item (.record 4 ⟨[1, 116, 0], 5, 1, 16, [3, 120, 32, 121, 1, 122]⟩)] := by
   decide +kernel
+
+/-! ### WKS: the bit map (known finding D18) -/
+
+/-- **`serialize_in_wks` against RFC 1035 §3.4.2**, for every address, protocol and port list:
+    written with the most significant bit first (`0x80 >> (port % 8)`) the RDATA is the RFC's
+    (`wksBitmap`: port `8 i + j` is the bit of value `2 ^ (7 - j)` of octet `i`, stated
+    arithmetically from membership in the port list); written with the least significant bit
+    first (`1 << (port % 8)`) every octet of the bit map has its bits in the opposite order. -/
+theorem C23_wks_bitmap (msb : Bool) (addr : List UInt8) (proto : Nat) (ports : List Nat) :
+    newInWksWith msb addr proto ports =
+      addr ++ UInt8.ofNat proto :: (wksBitmap ports).map (if msb then id else revBits) :=
+  newInWksWith_eq msb addr proto ports
+
+/-- the repository under test (its mask expression is read by the extractor into
+    `Gen.wksMaskMsbFirst`): with the RFC's order the parser's WKS RDATA is `wksWire`; with the
+    other order it is `wksWire` with every bit-map octet bit-reversed -/
+theorem C23_wks_repository (addr : List UInt8) (proto : Nat) (ports : List Nat) :
+    (Gen.wksMaskMsbFirst = true → newInWks addr proto ports = wksWire addr proto ports) ∧
+    (Gen.wksMaskMsbFirst = false →
+      newInWks addr proto ports = addr ++ UInt8.ofNat proto :: (wksBitmap ports).map revBits) := by
+  unfold newInWks wksWire
+  rw [C23_wks_bitmap]
+  constructor <;> intro h <;> simp [h]
+
+/-- **known finding D18**, the witness: `a. 5 IN WKS 1.2.3.4 TCP 25` parses to the record whose
+    RDATA is what `serialize_in_wks` makes of address 1.2.3.4, protocol 6, ports [25]; with
+    `1 << (port % 8)` (src/rr/rdata/std13.rs:415) that is `01020304 06 00000002` — port 30 to
+    every reader that follows the RFC — while RFC 1035 §3.4.2 denotes `01020304 06 00000040`. -/
+theorem C23_wks_bit_order_witness :
+    parseAll ("a. 5 IN WKS 1.2.3.4 TCP 25\n".toUTF8.toList) {} =
+        [.item (.record 1 ⟨[1, 97, 0], 5, 1, 11, newInWks [1, 2, 3, 4] 6 [25]⟩)] ∧
+      newInWksWith false [1, 2, 3, 4] 6 [25] = [1, 2, 3, 4, 6, 0, 0, 0, 2] ∧
+      wksWire [1, 2, 3, 4] 6 [25] = [1, 2, 3, 4, 6, 0, 0, 0, 64] ∧
+      wksWire [1, 2, 3, 4] 6 [30] = [1, 2, 3, 4, 6, 0, 0, 0, 2] := by
+  decide +kernel
+
+/-- the two orders agree exactly on the bit maps whose octets read the same in both directions
+    (no ports; ports 0 and 7; …) -/
+example : newInWksWith false [1, 2, 3, 4] 17 [0, 7] = wksWire [1, 2, 3, 4] 17 [0, 7] ∧
+    newInWksWith false [1, 2, 3, 4] 6 [] = wksWire [1, 2, 3, 4] 6 [] := by decide +kernel
 
 end QV.C23
